@@ -96,6 +96,31 @@ def oracle_roundtrip(conf, recs):
     return bad[:8]
 
 
+def oracle_crlf(conf, recs):
+    """a copy of the written file with CRLF line ends (a file that went through a Windows editor) reads back as
+    the same records, count, box and title"""
+    path = os.path.join(gc.tmpdir(), "s13c.gro")
+    w = gc.run_writer(path, conf, recs)
+    if w[0] == "err":
+        return []
+    ref = gc.run_reader(path)
+    if ref[0] == "err":
+        return []                          # reported by oracle_roundtrip
+    with open(path, "wb") as f:
+        f.write(gc.to_crlf(w[1]).encode("latin-1"))
+    r = gc.run_reader(path)
+    if r[0] == "err":
+        return ["reading the CRLF copy of the written file raised an exception (class %d)" % r[1]]
+    bad = []
+    if r[2] != ref[2] or r[3] != ref[3]:
+        bad.append("the CRLF copy returns other records (%d) than the written file (%d)" % (len(r[3]), len(ref[3])))
+    if np.abs(np.asarray(r[4], dtype=float) - np.asarray(ref[4], dtype=float)).max() > 0:
+        bad.append("the CRLF copy returns another box")
+    if strip1(r[1]) != strip1(ref[1]):
+        bad.append("the CRLF copy returns the title %r instead of %r" % (r[1], ref[1]))
+    return bad
+
+
 def in_domain(conf, recs):
     """the property's domain: values that fit the field (the generator guarantees the rest)"""
     d = gc.effective_d(conf)
@@ -190,6 +215,14 @@ CORPUS = [
     ({"title": "monoclinic, beta > 90", "natoms": None, "fmt": None,
       "box": ("mat", [[4.0, 0.0, 0.0], [0.0, 3.5, 0.0], [-0.77646, 0.0, 2.89778]])},
      [(1, "SOL", "OW", 1, 0.1, 0.2, 0.3)]),
+    # titles with multi-byte characters (seeded C13-5: placeholder located by character count), count declared or not
+    ({"title": "BMIM BF4, cutoff 12 \u00c5, 25 \u00b0C", "natoms": None, "fmt": None, "box": ("vec", [3.0, 4.0, 5.0])},
+     [(1, "BMIM", "N1", 1, 1.593, 1.896, 0.729), (1, "BMIM", "C2", 2, 1.706, 1.984, 0.708),
+      (2, "BF4", "B1", 3, -0.250, 0.001, 12.345), (2, "BF4", "F1", 4, 0.125, -3.500, 7.000)]),
+    ({"title": "\u6c34 box", "natoms": None, "fmt": (9, 4), "box": ("vec", [3.0, 4.0, 5.0])},
+     [(1, "SOL", "OW", 1, 0.1, 0.2, 0.3, 0.01, 0.02, 0.03)]),
+    ({"title": "\u6c34 box \u00b5", "natoms": 1, "fmt": None, "box": ("vec", [3.0, 4.0, 5.0])},
+     [(1, "SOL", "OW", 1, 0.1, 0.2, 0.3)]),
     # empty title (IndexError on comment[-1] before efbff8f), given as '' and as a bare newline
     ({"title": "", "natoms": None, "fmt": None, "box": ("vec", [2.0, 2.0, 2.0])},
      [(1, "SOL", "OW", 1, 0.1, 0.2, 0.3), (1, "SOL", "HW1", 2, 0.4, 0.5, 0.6)]),
@@ -202,10 +235,22 @@ def corpus(ctx):
     S = ctx.cov["S"]
     S["corpus"] = 0
     for conf, recs in CORPUS:
+        if any(ord(ch) > 127 for ch in (conf["title"] or "")) and not gc.nonascii_ok():
+            continue
         bad = oracle_roundtrip(conf, recs)
         S["corpus"] += 1
         if bad:
             report(ctx, bad, conf, recs)
+        bad = oracle_crlf(conf, recs)
+        if bad:
+            report_crlf(ctx, bad, conf, recs)
+
+
+def report_crlf(ctx, bad, conf, recs):
+    ctx.cov["S"]["violating_cases"] = ctx.cov["S"].get("violating_cases", 0) + 1
+    if ctx.cov["S"]["violating_cases"] <= MAX_REPORTS:
+        ctx.violation("gro round trip (CRLF copy): " + "; ".join(bad), {"kind": "crlf", "case": gc.case_json(conf, recs)},
+                      key="crlf")
 
 
 # ------------------------------------------------------------------ K
@@ -319,13 +364,21 @@ def oracle(ctx, scale):
         size = None
         if i % 400 == 0:
             size = int(rs.choice([100, 200, 300]))
-        conf, recs = gc.gen_case(rs, natoms=size)
+        conf, recs = gc.gen_case(rs, natoms=size, nonascii=True)
         sizes[len(recs)] = sizes.get(len(recs), 0) + 1
         ctx.count(("s13", repr(conf), repr(recs)))
+        if any(ord(ch) > 127 for ch in (conf["title"] or "")):
+            S["nonascii_titles"] = S.get("nonascii_titles", 0) + 1
         bad = oracle_roundtrip(conf, recs)
         if bad:
             fails += 1
             report(ctx, bad, conf, recs)
+        if i % 3 == 0:
+            S["crlf_copies"] = S.get("crlf_copies", 0) + 1
+            bad = oracle_crlf(conf, recs)
+            if bad:
+                fails += 1
+                report_crlf(ctx, bad, conf, recs)
     S["roundtrips_x%d" % scale] = n
     S["failures"] = S.get("failures", 0) + fails
     S["atoms_histogram"] = {str(k): v for k, v in sorted(sizes.items())}
@@ -337,6 +390,8 @@ def replay(ctx, obj):
         bad = sequence_fails([gc.case_from_json(o) for o in r["cases"]])
     elif r.get("kind") == "roundtrip":
         bad = oracle_roundtrip(*gc.case_from_json(r["case"]))
+    elif r.get("kind") == "crlf":
+        bad = oracle_crlf(*gc.case_from_json(r["case"]))
     else:
         print("replay names a proof/correspondence, not an input:", str(r)[:300])
         return False
@@ -349,7 +404,8 @@ def finish(ctx):
         "decimal values are scaled integers in the model; that '{:w.df}'.format(x) is the correctly rounded decimal of the "
         "double x and float(s) the correctly rounded double of s is a property of CPython (trusted; the first is re-checked "
         "with decimal arithmetic on every generated value, the second through repr round trips of <= 15 significant digits)",
-        "ASCII text without carriage returns; text-mode tell/seek are byte offsets",
+        "the Coq model and K are ASCII text without carriage returns (text-mode tell/seek are byte offsets); titles with "
+        "multi-byte characters and CRLF copies of written files are exercised by the S oracle only (testing)",
         "the theorems restrict to values that fit the field width, names of 1-5 characters without whitespace, titles "
         "without newline; the model's behaviour outside (widened lines) is tied by K only",
     ]
